@@ -323,7 +323,7 @@ Fixpoint tiles (d : list Z) (p : Z) (tr : list (Z * option sl * lexer)) : Prop :
           ty <> ErrorT /\ p <= so v /\ 0 < sn v /\ so v + sn v <= len d /\ lpos (lz l') = so v + sn v /\
           (forall i, p <= i < so v -> is_ws (getz d i) = true) /\
           (p < so v -> ty = StartTagCloseT \/ ty = StartTagVoidT) /\
-          (exists w, low_rule ty tk w l' /\ p <= so w /\ 0 <= sn w /\ so w + sn w <= so v + sn v /\
+          (exists w, low_rule (d ++ [0]) ty tk w l' /\ p <= so w /\ 0 <= sn w /\ so w + sn w <= so v + sn v /\
                      view_bytes (lbuf (lz l')) v = view_bytes (lower_view (d ++ [0]) w) v) /\
           tiles d (so v + sn v) rest
       | None =>
@@ -337,6 +337,27 @@ Proof.
   intros (_ & _ & Hsuf & _) Hi Hp. rewrite Hsuf in Hp by lia.
   assert (0 <= i) by (apply peekz_some in Hp; lia).
   rewrite peekz_app_l in Hp by lia. unfold getz. rewrite Hp. reflexivity.
+Qed.
+
+(* low_rule looks at the buffer only inside the token *)
+Lemma view_bytes_ext b1 b2 v : 0 <= so v -> 0 <= sn v -> so v + sn v <= len b1 -> so v + sn v <= len b2 ->
+  (forall i, so v <= i < so v + sn v -> peekz b1 i = peekz b2 i) -> view_bytes b1 v = view_bytes b2 v.
+Proof. intros H1 H2 H3 H4 H. unfold view_bytes. apply slice_ext; try lia. exact H. Qed.
+
+Lemma low_rule_ext b1 b2 a ty tk w l' : (forall i, a <= i -> peekz b1 i = peekz b2 i) -> 0 <= a ->
+  (forall v, tk = Some v -> a <= so v /\ 0 <= sn v /\ so v + sn v <= len b1 /\ so v + sn v <= len b2) ->
+  low_rule b1 ty tk w l' -> low_rule b2 ty tk w l'.
+Proof.
+  intros Hext Ha Hv. unfold low_rule.
+  destruct ((ty =? StartTagT) || (ty =? SvgT) || (ty =? MathT) || (ty =? XmlT)); [exact (fun x => x)|].
+  destruct (ty =? EndTagT); [|exact (fun x => x)].
+  destruct tk as [v|]; [|exact (fun x => x)]. destruct (Hv v eq_refl) as (V1 & V2 & V3 & V4).
+  assert (Hvb : view_bytes b1 v = view_bytes b2 v) by (apply view_bytes_ext; try lia; intros i Hi; apply Hext; lia).
+  intros [Hw (t & k & T1 & T2 & T3 & T4 & T5 & T6)]. split.
+  - unfold endtag_name_view in *. rewrite <- Hvb. exact Hw.
+  - exists t, k. split; [exact T1|]. split; [exact T2|]. split; [exact T3|]. split; [exact T4|]. split.
+    + rewrite T5. f_equal. apply view_bytes_ext; cbn [so sn]; try lia. intros i Hi. apply Hext. lia.
+    + intros E. rewrite <- Hext by lia. apply T6, E.
 Qed.
 
 Lemma chain_tiles d tr : forall l, html_inv d l -> lstart (lz l) = lpos (lz l) -> chain l tr -> tiles d (lpos (lz l)) tr.
@@ -355,7 +376,10 @@ Proof.
     { intros i Hr. destruct (T5 i Hr) as (c & Hc & Hws). rewrite (ws_from_buf d l i c Hi); [exact Hws|lia|exact Hc]. }
     split; [exact T6|].
     split.
-    { exists w. split; [exact Wr|]. split; [exact W1|]. split; [exact W2|]. split; [lia|].
+    { exists w. split.
+      { apply (low_rule_ext (lbuf (lz l)) (d ++ [0]) (lpos (lz l))); [exact Hsuf|exact H0| |exact Wr].
+        intros v' Ev. injection Ev as <-. rewrite len_app. change (len [0]) with 1. lia. }
+      split; [exact W1|]. split; [exact W2|]. split; [lia|].
       unfold view_bytes. rewrite Hb. apply slice_ext; [lia| | |].
       - rewrite len_lower_view by lia. lia.
       - rewrite len_lower_view by (rewrite ?len_app; change (len [0]) with 1; lia). rewrite len_app. change (len [0]) with 1. lia.
@@ -380,19 +404,6 @@ Lemma lower_view_ci buf w : 0 <= so w -> 0 <= sn w -> so w + sn w <= len buf ->
 Proof.
   intros H1 H2 H3. apply peekz_ext. intros i. rewrite !peekz_map, peekz_lower_view by lia.
   destruct ((so w <=? i) && (i <? so w + sn w)); [apply option_map_lower_idem|reflexivity].
-Qed.
-
-(* ---- C02 refuted: "only tag and attribute names are altered" --------------------------------------------------- *)
-(* "</a X=Y>": the whole end tag is lower-cased, including the Y after '=' *)
-Lemma html_endtag_case_refuted_proof :
-  exists d v l' i, next no_tmpl (new_lexer d) = Ok (EndTagT, Some v, l') /\
-    so v <= i < so v + sn v /\ getz d (i - 1) = 61 /\          (* byte i follows an '=': it is (part of) a value *)
-    getz (lbuf (lz l')) i <> getz d i /\
-    view_bytes (lbuf (lz l')) v = [60; 47; 97; 32; 120; 61; 121; 62].
-Proof.
-  exists [60; 47; 97; 32; 88; 61; 89; 62]. eexists. eexists. exists 6.
-  split; [vm_compute; reflexivity|]. cbn [so sn]. split; [lia|]. split; [reflexivity|].
-  split; [vm_compute; discriminate|vm_compute; reflexivity].
 Qed.
 
 (* ---- C09 refuted: template regions inside comments, doctype, end tags, svg, math ---------------------------------- *)
@@ -437,7 +448,9 @@ Lemma html_rawtext_proof : forall c d l ty tk l', cfg_ok c -> html_inv d l -> in
     (lpos (lz l) < e ->
        ty = TextT /\ tk = Some (mkSl (lpos (lz l)) (e - lpos (lz l))) /\ ltext l' = tk /\
        rawtag l' = 0 /\ intag l' = false /\ lpos (lz l') = e) /\
-    (e = len d \/ (rawtag l <> html_hash_Plaintext /\ end_tag_at (rawtag l) (d ++ [0]) e)) /\
+    (e = len d \/ (rawtag l <> html_hash_Plaintext /\
+                   (end_tag_at (rawtag l) (d ++ [0]) e \/
+                    (rawtag l = html_hash_Script /\ end_tag_weak (rawtag l) (d ++ [0]) e)))) /\
     (has_delims c = false -> rawtag l <> html_hash_Script -> rawtag l <> html_hash_Plaintext ->
        forall p, lpos (lz l) <= p < e -> ~ end_tag_at (rawtag l) (d ++ [0]) p).
 Proof.
@@ -465,11 +478,16 @@ Proof.
     exists (lpos (fst s)). split; [lia|]. split; [|split].
     + intros Hlt. cbn [sn] in Hn. replace (0 <? lpos (fst s) - lstart (fst s)) with true in Hn by (symmetry; apply Z.ltb_lt; lia).
       injection Hn as <- <- <-. cbn [ltext rawtag intag lz skip lpos]. rewrite A2, Hcl. tauto.
-    + destruct Hend as [Hend|Hend].
+    + assert (Hblen : len (lbuf (lz l)) = len (d ++ [0])).
+      { pose proof (lx_wf_len _ Hw) as [Hbl _]. rewrite len_app. change (len [0]) with 1. lia. }
+      destruct Hend as [Hend|[Hend|[Hsc Hend]]].
       * left. apply at_end_true in Hend; [|eauto using adv_wf]. rewrite (adv_len _ _ Ha), Hlen in Hend. exact Hend.
-      * right. split; [b2p; assumption|]. eapply (end_tag_at_ext _ _ _ (lpos (lz l))); eauto. lia.
+      * right. split; [b2p; assumption|]. left. eapply (end_tag_at_ext true _ _ _ (lpos (lz l))); eauto. lia.
+      * right. split; [b2p; assumption|]. right. split; [exact Hsc|]. eapply (end_tag_at_ext false _ _ _ (lpos (lz l))); eauto. lia.
     + intros Hd Hs _ p Hp Hm. apply (Hnm Hd Hs p Hp).
-      eapply (end_tag_at_ext _ _ _ (lpos (lz l))); [|lia|exact H0|exact Hm]. intros i Hge. symmetry. apply Hsuf2. exact Hge.
+      assert (Hblen : len (d ++ [0]) = len (lbuf (lz l))).
+      { pose proof (lx_wf_len _ Hw) as [Hbl _]. rewrite len_app. change (len [0]) with 1. lia. }
+      eapply (end_tag_at_ext true _ _ _ (lpos (lz l))); [|exact Hblen|lia|exact H0|exact Hm]. intros i Hge. symmetry. apply Hsuf2. exact Hge.
 Qed.
 
 Example html_rawtext_nonvacuous :
@@ -480,26 +498,9 @@ Example html_rawtext_nonvacuous :
 Proof. eexists. split; [vm_compute; reflexivity|reflexivity]. Qed.
 
 (* ---- further clauses of the property text that are false on the current code (found while modelling) ------------ *)
-(* "<title>a</title-x>b</title>": the raw text ends at "</title-x>", an end tag whose own Text() is "title-x" *)
-Lemma html_rawtext_endtag_prefix_refuted_proof :
-  let d := [60;116;105;116;108;101;62;97;60;47;116;105;116;108;101;45;120;62;98;60;47;116;105;116;108;101;62] in
-  exists tr, run no_tmpl 4 (new_lexer d) = Ok tr /\
-    map (fun r => (fst (fst r), snd (fst r))) tr =
-      [(StartTagT, Some (mkSl 0 6)); (StartTagCloseT, Some (mkSl 6 1)); (TextT, Some (mkSl 7 1)); (EndTagT, Some (mkSl 8 10))] /\
-    (exists r, nth_error tr 3 = Some r /\
-       match ltext (snd r) with Some t => view_bytes (lbuf (lz (snd r))) t = [116;105;116;108;101;45;120] | None => False end).
-Proof.
-  eexists. split; [vm_compute; reflexivity|]. split; [reflexivity|]. eexists. split; [reflexivity|]. vm_compute. reflexivity.
-Qed.
-
 (* <svg><text>5(double quote) pipe</text></svg><p> : one SVG token up to the end of input, the closing svg tag and the p tag included *)
 Lemma html_svg_quote_refuted_proof :
   let d := [60;115;118;103;62;60;116;101;120;116;62;53;34;32;112;105;112;101;60;47;116;101;120;116;62;60;47;115;118;103;62;60;112;62] in
   exists l', next no_tmpl (new_lexer d) = Ok (SvgT, Some (mkSl 0 (len d)), l') /\ len d = 34.
 Proof. eexists. split; vm_compute; reflexivity. Qed.
 
-(* "</a" form-feed ">": Text() keeps the form feed although it is whitespace everywhere else in a tag *)
-Lemma html_endtag_formfeed_refuted_proof :
-  exists v t l', next no_tmpl (new_lexer [60; 47; 97; 12; 62]) = Ok (EndTagT, Some v, l') /\ ltext l' = Some t /\
-    view_bytes (lbuf (lz l')) t = [97; 12] /\ is_ws 12 = true.
-Proof. eexists _, _, _. split; [vm_compute; reflexivity|]. split; [reflexivity|]. split; vm_compute; reflexivity. Qed.
